@@ -46,7 +46,8 @@ Arith(op, a, b) ==
     [] IsRaise(b) -> b
     [] a.k = "unspec" \/ b.k = "unspec" -> Unspec
     [] a.k = "sym" \/ b.k = "sym" ->
-         IF (a.k = "sym" \/ IsNum(a)) /\ (b.k = "sym" \/ IsNum(b)) THEN Sym(TBin(op, TermOf(a), TermOf(b))) ELSE Unspec
+         IF op = "/" /\ IsExact(b) /\ CIsZero(b) THEN Unspec                    \* division by zero: not finite
+         ELSE IF (a.k = "sym" \/ IsNum(a)) /\ (b.k = "sym" \/ IsNum(b)) THEN Sym(TBin(op, TermOf(a), TermOf(b))) ELSE Unspec
     [] IsNum(a) /\ IsNum(b) ->
          IF a.x /\ b.x
          THEN IF VBig(a) \/ VBig(b) THEN Unspec
